@@ -50,6 +50,7 @@ pub struct NHistory {
     invalid_response: bool,             // the datagram being delivered is a crafted response that must be ignored
     token_bound: HashMap<u64, SocketAddr>, // token -> the address its MAC was first recorded for by the server
     bound_order: Vec<u64>,                 // tokens in the order the server recorded them
+    last_heard: HashMap<u64, std::time::Duration>, // client id -> server time of the last event that certainly was an authentic arrival
     max_accepted: HashMap<(u8, u64), u64>, // (direction, client k) -> highest sequence accepted in the current session
     owner_crafted: bool,                 // the datagram being delivered was sealed by the owner of the token (op 155)
     delivered_to_client: HashMap<u64, HashSet<Vec<u8>>>,
@@ -112,6 +113,7 @@ impl NHistory {
             invalid_response: false,
             token_bound: HashMap::new(),
             bound_order: vec![],
+            last_heard: HashMap::new(),
             max_accepted: HashMap::new(),
             owner_crafted: false,
             delivered_to_client: HashMap::new(),
@@ -413,6 +415,9 @@ impl NHistory {
                 let id = r.get(1).and_then(|t| t.as_u64()).unwrap_or(0);
                 let p = r.get(2).and_then(|t| t.as_b()).map(|x| x.to_vec()).unwrap_or_default();
                 self.feat("payload_at_server");
+                if let Some(now) = self.world.server.as_ref().map(|s| s.current_time()) {
+                    self.last_heard.insert(id, now);
+                }
                 match genuine_of {
                     Some((k, i)) => {
                         let tok_id = self.client_token.get(&k).and_then(|t| self.tokens.get(t)).map(|t| t.id);
@@ -442,6 +447,9 @@ impl NHistory {
                 let user = r.get(3).and_then(|t| t.as_b()).map(|x| x.to_vec()).unwrap_or_default();
                 self.feat("client_connected");
                 self.max_accepted.clear();
+                if let Some(now) = self.world.server.as_ref().map(|s| s.current_time()) {
+                    self.last_heard.insert(id, now);
+                }
                 if self.connected.contains_key(&id) {
                     self.violate("C10", format!("ClientConnected for id {} which is already connected", id));
                 }
@@ -653,10 +661,28 @@ impl NHistory {
             }
             103 => {
                 let k = u(1).unwrap_or(0);
+                let dt = std::time::Duration::from_nanos(u(2).unwrap_or(0));
+                // C18 at the client: a connected client times out exactly when nothing arrived for longer than the token's timeout
+                let view = self.world.clients.get(&k).map(|c| (c.verif_state(), c.current_time()));
+                let timeout = self.client_token.get(&k).and_then(|t| self.tokens.get(t)).map(|t| t.timeout);
                 let obs = self.emit(op);
                 if self.res.panicked {
                     self.violate("C07", "NetcodeClient::update panicked".to_string());
                     return false;
+                }
+                if let (Some(((3, _, last_recv, _, _, _), now)), Some(timeout)) = (view, timeout) {
+                    let after = self.world.clients.get(&k).map(|c| c.verif_state().0);
+                    let silent = (now + dt).saturating_sub(last_recv);
+                    let due = timeout > 0 && silent > std::time::Duration::from_secs(timeout as u64);
+                    if due && after == Some(3) {
+                        self.violate("C18", format!("connected client {} silent for {:?} (timeout {} s) was not timed out by update", k, silent, timeout));
+                    }
+                    if !due && after == Some(0) {
+                        self.violate("C18", format!("connected client {} was disconnected by update after {:?} of silence, timeout is {} s", k, silent, timeout));
+                    }
+                    if due {
+                        self.feat("client_timed_out");
+                    }
                 }
                 if let Some([Tree::N(1), Tree::L(pa)]) = obs.as_l() {
                     if let (Some(p), Some(a)) = (pa.first().and_then(|t| t.as_b()), pa.get(1).and_then(parse_addr)) {
@@ -702,6 +728,13 @@ impl NHistory {
                         }
                         if disconnected && !(c.timeout_seconds > 0 && silent > limit) {
                             self.violate("C18", format!("client {} disconnected by update_client after {:?} of silence, timeout is {:?}", id, silent, limit));
+                        }
+                        // the same against the monitor's own clock: the handshake's completion and every surfaced payload are arrivals
+                        if let (true, Some(heard)) = (disconnected, self.last_heard.get(&id).copied()) {
+                            let own_silent = now.saturating_sub(heard);
+                            if own_silent <= limit {
+                                self.violate("C18", format!("client {} timed out by update_client {:?} after an authentic packet of it was accepted, timeout is {:?}", id, own_silent, limit));
+                            }
                         }
                         if disconnected {
                             self.feat("server_timed_out_client");
